@@ -145,8 +145,10 @@ class USMSecurityParameters:
             OctetString,
             OctetString,
         )
+        # The types must match exactly: subclasses (f.ex. TimeTicks for
+        # Integer) carry other tags and convert to other Python types.
         if len(seq) != len(expected_types) or any(
-            not isinstance(item, expected)
+            type(item) is not expected  # pylint: disable=unidiomatic-typecheck
             for item, expected in zip(seq, expected_types)
         ):
             raise SnmpError("Malformed USM security parameters!")
